@@ -33,7 +33,7 @@ def classify(op, m):
 def run(ctx):
     rng, thorough = ctx.rng, ctx.tier == 'thorough'
     w = setup(ctx)
-    keys = [k for k in w.keys if k['curve'] in ('p256', 'p384') and k['hosts'].startswith(b'example.com')]
+    keys = [k for k in w.keys if k['curve'] in ('p256', 'p384') and k['hosts'].startswith(b'example.com')][:2]
     foreign = [k for k in w.keys if k['hosts'].startswith(b'other')][0]
     certurl, vurl = b'https://example.com/cert.msg', b'https://example.com/v'
     date, expires = 1517418800, 1517418800 + 3600
@@ -170,9 +170,10 @@ def run(ctx):
                   (expires, 1), (expires, 500000000), (expires, 999999999), (date - 1, 999999999), (date, 1), (expires - 1, 999999999)]:
             items.append((e0, t, fetch))
     if not thorough and len(items) > 9000:
-        # keep every in-memory variant; sample the file-level mutants
+        # keep every in-memory variant; sample the file-level mutants, but never below 3000 of them (the in-memory set grows with the
+        # number of keys; a budget that is only "what is left" once silently dropped every file-level mutant)
         nfile = sum(1 for _ in items_file_marker)
-        keep = set(rng.sample(range(nfile), max(0, 9000 - (len(items) - nfile))))
+        keep = set(rng.sample(range(nfile), min(nfile, max(3000, 9000 - (len(items) - nfile)))))
         remap, out = {}, []
         for i, it in enumerate(items):
             if i >= nfile or i in keep:
